@@ -901,6 +901,10 @@ func hRunHistory(t *testing.T, out *vOut, r *rand.Rand, id int) {
 	disturbed := map[string]bool{}
 	// statuses recorded in the API at the time of the last restart
 	atCrash := map[string][]net.IP{}
+	// addresses that, since the last restart, a Service recorded at the restart took in addition to / instead of its own
+	// (F14: a PreferDualStack Service gaining the other family; F21: a recorded Service re-allocated) - remembered for the
+	// whole epoch, the taker may be gone when the victim is looked at
+	takenF14, takenF21 := map[string]bool{}, map[string]bool{}
 	atCrashSpec := map[string]gSpec{}
 	disturbedCrash := map[string]bool{} // spec edited / addresses inadmissible at some point since the restart
 
@@ -1081,6 +1085,24 @@ func hRunHistory(t *testing.T, out *vOut, r *rand.Rand, id int) {
 				crashedSince = false
 			}
 			out.Stat("restart_checks", 1)
+			for _, other := range w.existing() {
+				hadO := atCrash[other]
+				if len(hadO) == 0 {
+					continue
+				}
+				mem := w.c.ips.IPs(other)
+				osp := w.specs[other]
+				gain := osp.Pol == "prefer" && len(hadO) == 1 && len(mem) == 2 && subsetIPs(hadO, mem)
+				for _, y := range append(append([]net.IP{}, gStatusIPs(w.get(other))...), mem...) { // its status write may have failed in this pass
+					if !subsetIPs([]net.IP{y}, hadO) {
+						if gain {
+							takenF14[y.String()] = true
+						} else {
+							takenF21[y.String()] = true
+						}
+					}
+				}
+			}
 			for nm, had := range atCrash {
 				cs := w.get(nm)
 				if len(had) == 0 || disturbedCrash[nm] || cs == nil {
@@ -1094,24 +1116,30 @@ func hRunHistory(t *testing.T, out *vOut, r *rand.Rand, id int) {
 				}
 				disturbed[nm] = true // reported here, not again by the stability check
 				disturbedCrash[nm] = true
-				sig := "restart-changed-admissible-status"
+				// "still admissible" is joint: a co-tenant recorded on the same address whose request was edited so that the
+				// two may no longer share it (key dropped, colliding port, other backends) makes the pair inadmissible -
+				// one of them has to go, which one is the pass order's choice
+				joint := true
 				for _, other := range w.existing() {
 					if other == nm {
 						continue
 					}
-					oips := gStatusIPs(w.get(other))
-					oips = append(oips, w.c.ips.IPs(other)...) // its status write may have failed in this pass
 					for _, x := range had {
-						for _, y := range oips {
-							if x.Equal(y) && len(atCrash[other]) > 0 {
-								osp := w.specs[other]
-								if osp.Pol == "prefer" && len(atCrash[other]) == 1 && len(w.c.ips.IPs(other)) == 2 && subsetIPs(atCrash[other], w.c.ips.IPs(other)) {
-									sig = "restart-preferdual-additional-steals"
-								} else if sig != "restart-preferdual-additional-steals" {
-									sig = "restart-recorded-service-reallocates-before-victim"
-								}
-							}
+						if subsetIPs([]net.IP{x}, atCrash[other]) && !oShareableCode(sp, w.specs[other]) {
+							joint = false
 						}
+					}
+				}
+				if !joint {
+					out.Stat("restart_cotenants_no_longer_shareable", 1)
+					continue
+				}
+				sig := "restart-changed-admissible-status"
+				for _, x := range had {
+					if takenF14[x.String()] {
+						sig = "restart-preferdual-additional-steals"
+					} else if takenF21[x.String()] && sig != "restart-preferdual-additional-steals" {
+						sig = "restart-recorded-service-reallocates-before-victim"
 					}
 				}
 				others := map[string][]string{}
@@ -1142,6 +1170,7 @@ func hRunHistory(t *testing.T, out *vOut, r *rand.Rand, id int) {
 		crashedSince = true
 		atCrash = map[string][]net.IP{}
 		atCrashSpec = map[string]gSpec{}
+		takenF14, takenF21 = map[string]bool{}, map[string]bool{}
 		disturbedCrash = map[string]bool{}
 		for _, nm := range w.existing() {
 			atCrash[nm] = gStatusIPs(w.get(nm))
